@@ -104,6 +104,7 @@ type Sim struct {
 	start    time.Time
 	procsActive map[string]int
 	procActions map[pipeline.ActionPluginController][]*simAction
+	multiHold   bool
 
 	outMain *simOutput
 	outDQ   *simOutput
@@ -123,6 +124,10 @@ func (s *Sim) failf(prop, sig, format string, args ...any) {
 	// caller holds mu; first failure per (prop) only
 	if s.failed[prop] {
 		return
+	}
+	if s.multiHold && (prop == "C01" || prop == "C02" || prop == "C04") && !strings.HasSuffix(sig, ":dead-queue") {
+		// known-finding class: two actions of one chain request sequential events (hold / collapse)
+		sig += ":multi-hold"
 	}
 	s.failed[prop] = true
 	s.fails = append(s.fails, Failure{Prop: prop, Sig: sig, Msg: fmt.Sprintf(format, args...)})
@@ -732,6 +737,17 @@ func Run(plan *Plan) *Result {
 			}
 		}
 	}
+	holders := map[int]bool{}
+	for _, src := range plan.Sources {
+		for _, r := range src.Records {
+			for a, op := range r.Ops {
+				if op == "start" {
+					holders[a] = true
+				}
+			}
+		}
+	}
+	s.multiHold = len(holders) >= 2
 	settings := fdkit.DefaultSettings()
 	settings.Capacity = plan.Capacity
 	settings.EventTimeout = time.Duration(plan.EventTimeoutMs) * time.Millisecond
